@@ -178,6 +178,13 @@ def build_app(env, plan, journal, holder):
             return b'ok'
 
         @cherrypy.expose
+        def readback(self):
+            # what a later request presenting the id finds stored (plain data only)
+            import json as _json
+            return _json.dumps({k: v for k, v in cherrypy.session.items()
+                                if isinstance(v, (int, str))}, sort_keys=True).encode('ascii')
+
+        @cherrypy.expose
         def planned(self):
             holder['sess'] = cherrypy.serving.session
             observe('H')
@@ -251,17 +258,22 @@ def build_app(env, plan, journal, holder):
                 (lambda o=out: _raise(o)), failsafe=bool(fs), priority=prio)
     if plan['oer'] != 'ok':
         planned_conf['hooks.on_end_resource.u'] = Hook(lambda: _raise(plan['oer']), failsafe=False, priority=50)
-    app = cherrypy.Application(Root(), '', {'/setup': conf, '/planned': planned_conf})
+    app = cherrypy.Application(Root(), '', {'/setup': conf, '/planned': planned_conf, '/readback': conf})
     app.log.screen = False
     app.log.error_file = ''
     app.log.access_file = ''
     return app, observe
 
 
-def call(app, environ, consume='full'):
-    got = {}
+def call(app, environ, consume='full', sr_fail=False):
+    got = {'sr_calls': 0}
 
     def start_response(status, headers, exc_info=None):
+        got['sr_calls'] += 1
+        if sr_fail and got['sr_calls'] == 1:
+            # the server's start_response refuses (once): the application object the server would close() is never
+            # handed over, so whatever the request holds has to be let go by the application itself
+            raise _Planned('start_response failed (planned)')
         got['status'] = status
         got['headers'] = headers
         return lambda b: None
@@ -302,7 +314,20 @@ def run_plan(plan):
                 raise _Planned("'after_request' listener")
             env.cherrypy.engine.subscribe('after_request', boom)
         try:
-            return _planned_request(env, plan, app, observe, cookie, journal, holder)
+            r = _planned_request(env, plan, app, observe, cookie, journal, holder)
+            if not r['leaked'] and not r['locked_end']:
+                # a later request presenting the id: what did the planned request leave in the store?
+                try:
+                    it, got = call(app, _environ('/readback', cookie))
+                    try:
+                        body = b''.join(it)
+                    finally:
+                        it.close()
+                    import json as _json
+                    r['readback'] = _json.loads(body.decode('ascii')) if got.get('status', '').startswith('200') else None
+                except Exception as e:      # noqa: BLE001 - an observation
+                    r['readback'] = 'failed:%s' % type(e).__name__
+            return r
         finally:
             if boom is not None:
                 env.cherrypy.engine.unsubscribe('after_request', boom)
@@ -313,7 +338,16 @@ def run_plan(plan):
 def _planned_request(env, plan, app, observe, cookie, journal, holder):
     _state['release_attempts'] = 0
     if True:
-        it, got = call(app, _environ('/planned', cookie))
+        try:
+            it, got = call(app, _environ('/planned', cookie), sr_fail=bool(plan.get('srFail')))
+        except Exception as e:      # noqa: BLE001 - the WSGI callable let it through: an observation
+            observe('B')
+            observe('E')
+            sess = holder.get('sess')
+            return {'journal': journal, 'leaked': env.leaked(), 'status': '???',
+                    'locked_end': bool(getattr(sess, 'locked', False)), 'gen_error': None,
+                    'close_error': None, 'call_error': type(e).__name__,
+                    'release_attempts': _state.get('release_attempts', 0)}
         observe('B')
         gen_error = None
         close_error = None
